@@ -14,13 +14,13 @@ from .. import common, seq
 from ..evidence import Run
 
 PROXY = ["Forwarded", "X-Forwarded-For", "X-Forwarded-Host", "X-Forwarded-Proto", "X-Forwarded-Port", "X-Forwarded-By"]
-VALUES = {
-    "Forwarded": ["for=6.6.6.6;host=evil.example:444;proto=https;by=9.9.9.9", "for=:80", 'for="[::1]:99", for=7.7.7.7', "garbage;=;", "host=", 'for="unterminated'],
-    "X-Forwarded-For": ["6.6.6.6", "6.6.6.6, 7.7.7.7", "[::1]", ":80", '"q', "", "::1"],
-    "X-Forwarded-Host": ["evil.example", "evil.example:99", ",", '"x', ":5"],
-    "X-Forwarded-Proto": ["https", "ftp", "http, https", '"', ""],
-    "X-Forwarded-Port": ["444", "x", "1, 2", ""],
-    "X-Forwarded-By": ["9.9.9.9", '"'],
+VALUES = {  # first three of each are used by the quick tier: well-formed, empty, malformed
+    "Forwarded": ["for=6.6.6.6;host=evil.example:444;proto=https;by=9.9.9.9", "", "for=:80", 'for="[::1]:99", for=7.7.7.7', "garbage;=;", "host=", 'for="unterminated', " "],
+    "X-Forwarded-For": ["6.6.6.6", "", '"q', "6.6.6.6, 7.7.7.7", "[::1]", ":80", "::1", " "],
+    "X-Forwarded-Host": ["evil.example:99", "", '"x', "evil.example", ",", ":5"],
+    "X-Forwarded-Proto": ["https", "", "http, https", "ftp", '"'],
+    "X-Forwarded-Port": ["444", "", "1, 2", "x"],
+    "X-Forwarded-By": ["9.9.9.9", "", '"'],
 }
 PEER = ("10.1.2.3", 4567)
 XF = ["x-forwarded-for", "x-forwarded-host", "x-forwarded-proto", "x-forwarded-port", "x-forwarded-by"]
